@@ -7,8 +7,12 @@
                       list: every interleaving of hops (with any subset of failed listens and any
                       index draws), writes, arrivals, reads, deadline/buffer settings and Close.
    ce                 socket faults: ce k = "Close() of socket k reports an error"; every theorem
-                      about step / run holds for EVERY such assignment. *)
-From Hy Require Import lib.Res gen.ParamsC19 model.C19_PortUnion model.C19_Hop proof.C19_PortUnion proof.C19_Grammar proof.C19_Hop.
+                      about step / run holds for EVERY such assignment.
+   xstep / xrun       the hop LTS together with the receiver goroutines (model/C19_Recv.v): alive x
+                      says, per socket, whether its recvLoop is still running; XRecv k r is one turn
+                      of socket k's loop, r what the socket's ReadFrom returned.  xreachable: after any
+                      action sequence in which sockets report a permanent read error only once closed. *)
+From Hy Require Import lib.Res gen.ParamsC19 model.C19_PortUnion model.C19_Hop model.C19_Recv proof.C19_PortUnion proof.C19_Grammar proof.C19_Hop proof.C19_Recv.
 From Coq Require Import ZArith List Sorting.Sorted Strings.String.
 Import ListNotations.
 Local Open Scope N_scope.
@@ -151,6 +155,38 @@ Proof.
   intros l. exact (run_fifo ps ce l s).
 Qed.
 Print Assumptions C19_prev_still_delivers.
+
+(* The receiver of an open socket never stops.  A socket's receiver goroutine ends by exactly one
+   kind of step: a permanent error of that socket's ReadFrom; no other action of any goroutine, no
+   state of the queue (full included) and no timeout ends it.  Hence, sockets failing permanently
+   only once closed, in every reachable state the receiver of every open socket (prev and cur) is
+   running, whatever happened before: a datagram arriving on prev or cur is appended to the queue
+   when there is room, and one that meets a full queue is dropped and changes NOTHING (the
+   receiver keeps running: an overflow costs only the packets that met it; after the reader has
+   drained the queue the first clause applies again).  Every run of the machine with receivers
+   is, state by state and boundary call by boundary call, a run of the hop LTS, so every theorem
+   above holds of it. *)
+Theorem C19_receiver_never_stops : forall ps ce,
+  (forall x k a, recv_alive x k = true -> recv_alive (fst (xstep ps ce x a)) k = false -> a = XRecv k RPermErr) /\
+  (forall x, xreachable ps ce x ->
+     reachable ps ce (base x) /\
+     List.length (alive x) = List.length (socks (base x)) /\
+     (forall k, sock_open (socks (base x)) k = true -> recv_alive x k = true) /\
+     (closed (base x) = false -> forall k p, (k = cur (base x) \/ prev (base x) = Some k) ->
+        recv_alive x k = true /\
+        ((List.length (queue (base x)) < packetQueueSize)%nat ->
+           xstep ps ce x (XRecv k (RData p)) = (mkX (with_queue (base x) (queue (base x) ++ [IPkt p])) (alive x), [])) /\
+        (List.length (queue (base x)) = packetQueueSize ->
+           xstep ps ce x (XRecv k (RData p)) = (x, [])))) /\
+  (forall x l, run ps ce (base x) (proj ps ce x l) = (base (fst (xrun ps ce x l)), snd (xrun ps ce x l))).
+Proof.
+  intros ps ce. split; [intros x k a; exact (recv_exit_only_on_error ps ce x k a)|]. split.
+  - intros x R. split; [exact (xreachable_base ps ce x R)|].
+    destruct (xreachable_inv ps ce x R) as [L O]. split; [exact L|]. split; [exact O|].
+    intros Hc k p Hk. exact (recv_delivers ps ce x k p R Hc Hk).
+  - intros x l. exact (xrun_refines ps ce l x).
+Qed.
+Print Assumptions C19_receiver_never_stops.
 
 (* Close: afterwards every socket ever created is closed, each exactly once; Close itself closes
    prev (if any) and cur and nothing else, and returns what cur's Close reported.  On a closed
